@@ -234,7 +234,8 @@ func groupKind(g string) string {
 
 // ---- enumeration ------------------------------------------------------------------------------------------------------
 
-var groupAlphabet = []string{"a", "b", "ab", "test", "a,b", "a*", "b*", "a,test", "t*", "*"}
+// groups with overlapping / duplicate entries (one label may satisfy several entries of a group) are included
+var groupAlphabet = []string{"a", "b", "ab", "test", "a,b", "a*", "b*", "a,test", "t*", "*", "a,a", "a*,a", "a*,ab"}
 var excludePatterns = []string{"//p:t3", "//p:all", "//p/...", "//pq/..."}
 var expandPatterns = []string{"//p:all", "//p/...", "//pq:all", "//..."}
 
